@@ -204,7 +204,7 @@ func drawAction(t *rapid.T, w *sim.World, s swarm, o simOpts) sim.Action {
 	case "run":
 		return sim.Action{K: "run", N: rapid.SampledFrom([]int{1, 2, 3, 5, 8, 13, 30, 100}).Draw(t, "k")}
 	case "timeout":
-		return sim.Action{K: "timeout", Node: rapid.SampledFrom(live).Draw(t, "node")}
+		return sim.Action{K: "timeout", Node: rapid.SampledFrom(live).Draw(t, "node"), D: rapid.SampledFrom([]int{0, 0, 0, 1, 2, 4}).Draw(t, "split")}
 	case "timeouts":
 		if rapid.IntRange(0, 3).Draw(t, "coordinated") > 0 {
 			return sim.Action{K: "timeouts", Mask: laggardMask(w)}
@@ -238,7 +238,7 @@ func drawAction(t *rapid.T, w *sim.World, s swarm, o simOpts) sim.Action {
 		}
 		src := rapid.SampledFrom(srcs).Draw(t, "src")
 		c := rapid.SampledFrom(w.Nodes[src].Commits).Draw(t, "commit")
-		return sim.Action{K: "sync", Node: rapid.SampledFrom(live).Draw(t, "node"), N: src, H: c.H}
+		return sim.Action{K: "sync", Node: rapid.SampledFrom(live).Draw(t, "node"), N: src, H: c.H, D: rapid.SampledFrom([]int{0, 0, 0, 1, 2, 4}).Draw(t, "split")}
 	case "byz":
 		if spec := drawByz(t, w, o); spec != nil {
 			return sim.Action{K: "byz", Byz: spec, N: rapid.SampledFrom([]int{0, 0, 5, 20, 60}).Draw(t, "then-run")}
@@ -278,7 +278,7 @@ func assistedViewChanges(t *rapid.T, w *sim.World, as int, rounds int) {
 		w.Apply(sim.Action{K: "timeouts", Mask: mask})
 		if nl := w.LeaderIdx(h, v); w.IsByz(nl) {
 			preset := rapid.SampledFrom(nvPresets).Draw(t, "avc-preset")
-			w.Apply(sim.Action{K: "byz", N: 60, Byz: &sim.ByzSpec{Strat: "nv", As: nl, To: full, H: h, V: v, P: append([]int{}, preset...)}})
+			w.Apply(sim.Action{K: "byz", N: 60, Byz: &sim.ByzSpec{Strat: "nv", As: nl, To: full, H: h, V: v, P: append([]int{}, preset...), Tailor: rapid.IntRange(0, 2).Draw(t, "avc-tailor") == 0}})
 			w.Apply(sim.Action{K: "byz", N: 100, Byz: &sim.ByzSpec{Strat: "support", As: nl, To: full, H: h, V: v, P: []int{0, 0}}})
 			continue
 		}
@@ -416,7 +416,7 @@ func runSimCaseWith(t *rapid.T, o simOpts, setup func(*sim.World)) *sim.World {
 				preset := rapid.SampledFrom(nvPresets).Draw(t, "tpl-preset")
 				w.Apply(sim.Action{K: "dropheld"})
 				w.Apply(sim.Action{K: "release"})
-				w.Apply(sim.Action{K: "byz", N: 60, Byz: &sim.ByzSpec{Strat: "nv", As: nl, To: full, H: 1, V: view, P: append([]int{}, preset...)}})
+				w.Apply(sim.Action{K: "byz", N: 60, Byz: &sim.ByzSpec{Strat: "nv", As: nl, To: full, H: 1, V: view, P: append([]int{}, preset...), Tailor: rapid.IntRange(0, 2).Draw(t, "tpl-tailor") == 0}})
 				w.Apply(sim.Action{K: "byz", N: 100, Byz: &sim.ByzSpec{Strat: "support", As: nl, To: full, H: 1, V: view, P: []int{0, 0}}})
 				break
 			}
@@ -496,6 +496,9 @@ func recordSim(col *ev.Collector, w *sim.World) {
 		if w.Obs.HeightsDone > w.Cfg.AbsentH {
 			col.Class("absent-member-height-completed")
 		}
+	}
+	if w.Obs.SplitEvents > 0 {
+		col.Class("worker-picks-event-up-later-than-main-loop")
 	}
 	if w.Obs.Interrupts > 0 {
 		col.Class("main-loop-event-during-consumer-call")
